@@ -88,27 +88,55 @@ LEVEL = "model_checking"
 # =====================================================================================================================
 # PATCH part: alphabet
 # =====================================================================================================================
+_ALIASED = (
+    "from snowflake.connector import connect  # noqa: F401\n"
+    "from snowflake.connector import connect as sf_connect  # noqa: F401\n"
+    "from snowflake.connector.pandas_tools import write_pandas as sf_write_pandas  # noqa: F401\n"
+)
 HELPER_SRC = {
     "c20h_conn": "from snowflake.connector import connect  # noqa: F401\n\n\ndef other():\n    return 'not a snowflake function'\n",
     "c20h_wp": "from snowflake.connector.pandas_tools import write_pandas  # noqa: F401\n",
+    # binds the connector under other names (and, beside them, under the usual one)
+    "c20h_alias": _ALIASED,
     "c20h_lazy": "from snowflake.connector import connect  # noqa: F401\n",
+    "c20h_lazy_alias": _ALIASED,
+    # the same alias as c20h_lazy_alias.sf_connect, and the *name* `connect` bound to write_pandas
+    "c20h_lazy_alias2": (
+        "from snowflake.connector import connect as sf_connect  # noqa: F401\n"
+        "from snowflake.connector.pandas_tools import write_pandas as connect  # noqa: F401\n"
+    ),
 }
-PREIMPORTED = ("c20h_conn", "c20h_wp")  # c20h_lazy is deliberately not imported before the first patch()
+# the c20h_lazy* modules are deliberately not imported before the first patch() that names them
+PREIMPORTED = ("c20h_conn", "c20h_wp", "c20h_alias")
 
-# watched attributes: (kind, module, attribute, which original it has to be)
+# watched attributes: (kind, module, attribute, which original it has to be); first those of modules that are imported
+# before any patch(), then those of the modules patch() itself has to import
 WATCHED = [
     ("std-connect", "snowflake.connector", "connect", "connect"),
     ("std-write_pandas", "snowflake.connector.pandas_tools", "write_pandas", "write_pandas"),
     ("from-import-connect", "c20h_conn", "connect", "connect"),
     ("from-import-write_pandas", "c20h_wp", "write_pandas", "write_pandas"),
+    ("aliased-connect", "c20h_alias", "sf_connect", "connect"),
+    ("aliased-write_pandas", "c20h_alias", "sf_write_pandas", "write_pandas"),
+    ("unaliased-beside-alias", "c20h_alias", "connect", "connect"),
     ("unimported-module", "c20h_lazy", "connect", "connect"),
+    ("unimported-aliased-connect", "c20h_lazy_alias", "sf_connect", "connect"),
+    ("unimported-aliased-write_pandas", "c20h_lazy_alias", "sf_write_pandas", "write_pandas"),
+    ("unimported-unaliased-beside-alias", "c20h_lazy_alias", "connect", "connect"),
+    ("unimported2-aliased-connect", "c20h_lazy_alias2", "sf_connect", "connect"),
+    ("unimported2-write_pandas-named-connect", "c20h_lazy_alias2", "connect", "write_pandas"),
 ]
 KINDS = [w[0] for w in WATCHED]
+N_PRE = sum(1 for w in WATCHED if not w[1].startswith("c20h_lazy"))
+LAZY_KINDS = KINDS[N_PRE:]
 KIND_OF_TARGET = {f"{w[1]}.{w[2]}": w[0] for w in WATCHED}
 
 T_CONN = "c20h_conn.connect"
 T_WP = "c20h_wp.write_pandas"
 T_LAZY = "c20h_lazy.connect"
+A = "c20h_alias"
+LA = "c20h_lazy_alias"
+LA2 = "c20h_lazy_alias2"
 # id -> (value passed as extra_targets, every target resolvable to a snowflake function?)
 TARGET_LISTS = {
     "none": ([], True),
@@ -117,17 +145,31 @@ TARGET_LISTS = {
     "from-import-write_pandas": ([T_WP], True),
     "tuple:both-from-imports": ((T_CONN, T_WP), True),
     "from-import-connect-twice": ([T_CONN, T_CONN], True),
+    "aliased": ([f"{A}.sf_connect", f"{A}.sf_write_pandas"], True),
+    "aliased+unaliased": ([f"{A}.connect", f"{A}.sf_connect"], True),
     "unimported-module": ([T_LAZY], True),
+    "unimported-aliased": ([f"{LA}.sf_connect", f"{LA}.sf_write_pandas"], True),
+    "unimported-aliased+unaliased": ([f"{LA}.connect", f"{LA}.sf_connect", f"{LA}.sf_write_pandas"], True),
+    "unimported-two-modules-same-alias": ([f"{LA}.sf_connect", f"{LA2}.sf_connect"], True),
+    "unimported-cross-named": ([f"{LA2}.connect", f"{LA2}.sf_connect"], True),
     "nonexistent-module": (["c20h_nomod.connect"], False),
     "nonexistent-attr": (["c20h_conn.nope"], False),
     "non-snowflake-fn": (["c20h_conn.other"], False),
     "malformed": (["connect"], False),
     "valid+nonexistent-attr": ([T_CONN, "c20h_conn.nope"], False),
     "nonexistent-module+valid": (["c20h_nomod.connect", T_CONN], False),
+    "unimported-aliased+nonexistent-attr": ([f"{LA}.sf_connect", "c20h_conn.nope"], False),
 }
-NESTED_INNER_QUICK = ["none", "from-import-connect", "unimported-module", "nonexistent-module"]
+# quick tier: the target lists above minus these (they only multiply the lazily-imported-module states)
+THOROUGH_ONLY = ["unimported-cross-named", "unimported-aliased+nonexistent-attr"]
+NESTED_INNER_QUICK = ["none", "from-import-connect", "unimported-module", "unimported-aliased", "nonexistent-module"]
 EXIT_MODES = ["normal", "exception"]
 MAX_DEPTH = 2  # only reachable if the implementation accepts a nested entry
+HISTORIES_PER_STATE = {"quick": 1, "thorough": 2}
+
+
+def target_lists(tier):
+    return [t for t in TARGET_LISTS if tier != "quick" or t not in THOROUGH_ONLY]
 
 
 def listed_kinds(tlid):
@@ -144,7 +186,7 @@ def listed_kinds(tlid):
 def ops_for(state, tier):
     open_, _lazy, _leaked, _last = state
     if not open_:
-        return [("enter", t) for t in TARGET_LISTS]
+        return [("enter", t) for t in target_lists(tier)]
     ops = [("exit", m) for m in EXIT_MODES]
     if len(open_) < MAX_DEPTH:
         inner = NESTED_INNER_QUICK if tier == "quick" else list(TARGET_LISTS)
@@ -152,7 +194,7 @@ def ops_for(state, tier):
     return ops
 
 
-INITIAL = ((), "absent", (), "start")
+INITIAL = ((), ("absent",) * len(LAZY_KINDS), (), "start")
 
 
 class _Boom(Exception):
@@ -307,9 +349,18 @@ class Real:
         for m in PREIMPORTED:
             importlib.import_module(m)
 
+    def ensure_conn(self):
+        """a connection obtained inside the innermost open block through the standard target (if it is replaced)"""
+        if self.blocks and self.blocks[-1]["conn"] is None:
+            x = watched_objects()[0]
+            if x is not _ABSENT and x is not originals()["connect"]:
+                self.blocks[-1]["conn"] = probe_connect(x)[1]
+
     def apply(self, op, probe):
         import fakesnow
 
+        if probe and (op[0] == "exit" or self.blocks):
+            self.ensure_conn()
         before_objs = watched_objects()
         before = statuses(before_objs)
         obs = {"op": list(op), "before": before}
@@ -330,12 +381,12 @@ class Real:
                 func = {}
                 o = originals()
                 should = ["std-connect", "std-write_pandas"] + [k for k in listed_kinds(tlid) if not k.startswith("std-")]
-                # a connection through the standard target (kept for the closed-after-exit observation)
-                if objs[0] is not _ABSENT and objs[0] is not o["connect"]:
-                    func["std-connect"], blk["conn"] = probe_connect(objs[0])
-                else:
-                    func["std-connect"] = "not-fake"
                 if probe:
+                    # a connection through the standard target (kept for the closed-after-exit observation)
+                    if objs[0] is not _ABSENT and objs[0] is not o["connect"]:
+                        func["std-connect"], blk["conn"] = probe_connect(objs[0])
+                    else:
+                        func["std-connect"] = "not-fake"
                     for i, (kind, _m, _a, which) in enumerate(WATCHED):
                         if kind not in should or kind == "std-connect":
                             continue
@@ -397,15 +448,32 @@ def next_state(pre, op, obs):
         open_ = open_[:-1]
         if not open_:
             last = "exit"
-    lazy = st[4]
-    leaked = tuple(k for k, s in zip(KINDS[:4], st[:4]) if s != "orig") if not open_ else ()
+    lazy = tuple(st[N_PRE:])
+    leaked = tuple(k for k, s in zip(KINDS[:N_PRE], st[:N_PRE]) if s != "orig") if not open_ else ()
     return (open_, lazy, leaked, last)
 
 
 # ---- oracle (from the property text; state = what was observed before the operation) --------------------------------
-def judge_patch(pre, op, obs):
-    """-> [(clause, class, failed, detail)] : every demand evaluated for this transition (for the homogeneity audit)."""
+def lazy_class(k, lazy, imp):
+    """class fragment for a listed target that lives in a module patch() has (had) to import itself.
+    imp: kind -> was this attribute listed by the patch() that imported its module?"""
+    if k not in LAZY_KINDS:
+        return f"target={k}", False
+    if lazy[LAZY_KINDS.index(k)] == "absent":
+        return f"target={k},imported-by=this-patch", False
+    if imp.get(k, True):
+        return f"target={k},imported-by=earlier-patch", False
+    # (a stale write_pandas mock still works - the fake is a plain function - a stale connect mock is bound to the
+    # closed instance: two classes)
+    which = WATCHED[KINDS.index(k)][3]
+    return f"target=unimported-module-attr:{which},imported-by=earlier-patch,not-listed-then", True
+
+
+def judge_patch(pre, op, obs, imp=None):
+    """-> [(clause, class, failed, detail)] : every demand evaluated for this transition (for the homogeneity audit).
+    imp: for attributes of lazily imported modules, whether the importing patch() listed them (see lazy_class)."""
     open_, lazy, _leaked, last = pre
+    imp = imp or {}
     depth = len(open_)
     st = obs["status"]
     out = []
@@ -417,7 +485,8 @@ def judge_patch(pre, op, obs):
             if valid:
                 out.append(("C20.enter", f"after={last}", raised is not None, {"targets": tlid, "raised": raised}))
             if raised is not None:
-                newly = [k for k, b, a in zip(KINDS, obs["before"], st) if (b == "orig" and a != "orig") or (b == "absent" and a == "other")]
+                listed = listed_kinds(tlid)
+                newly = [k for k, b, a in zip(KINDS, obs["before"], st) if (b == "orig" and a != "orig") or (b == "absent" and a == "other" and k in listed)]
                 if not valid or newly:
                     out.append(
                         (
@@ -432,10 +501,8 @@ def judge_patch(pre, op, obs):
                 for k in should:
                     s = st[KINDS.index(k)]
                     f = obs["func"].get(k)
-                    cls = f"target={k}"
-                    if k == "unimported-module":
-                        cls += ",imported-by=" + ("this-patch" if lazy == "absent" else "earlier-patch")
-                    out.append(("C20.inside", cls, s != "other" or f != "ok", {"targets": tlid, "identity": s, "used_as_fake": f}))
+                    cls, _unlisted = lazy_class(k, lazy, imp)
+                    out.append(("C20.inside", cls, s != "other" or f != "ok", {"targets": tlid, "target": k, "identity": s, "used_as_fake": f}))
         else:
             cls = "inner=" + ("valid" if valid else "failing")
             out.append(("C20.nested.refused", cls, raised is None, {"outer": list(open_), "inner": tlid}))
@@ -456,25 +523,39 @@ def judge_patch(pre, op, obs):
             tlid = open_[-1]
             for k in ["std-connect", "std-write_pandas"] + [k for k in listed_kinds(tlid) if not k.startswith("std-")]:
                 s = st[KINDS.index(k)]
-                out.append(("C20.restore_after_exit", f"target={k},exit={mode}", s != "orig", {"targets": tlid, "status_after_exit": s}))
+                cls = f"target={k},exit={mode}"
+                if k in LAZY_KINDS and imp.get(k) is False:
+                    cls = f"target=unimported-module-attr,not-listed-by-importing-patch,exit={mode}"
+                out.append(("C20.restore_after_exit", cls, s != "orig", {"targets": tlid, "target": k, "status_after_exit": s}))
             if obs["conn"] != "none":
                 out.append(("C20.closed", f"exit={mode}", obs["conn"] == "open", {"targets": tlid, "connection_after_exit": obs["conn"]}))
     return out
 
 
+def note_imports(imp, op, obs):
+    """remember, for every attribute of a module that this enter imported, whether the enter listed it"""
+    if op[0] == "enter":
+        listed = listed_kinds(op[1])
+        for k, b, a in zip(KINDS, obs["before"], obs["status"]):
+            if k in LAZY_KINDS and b == "absent" and a != "absent":
+                imp[k] = k in listed
+
+
 def run_patch_history(hist, op):
     """Replay hist from a pristine state (observing only what is needed to continue), apply op with full probes.
-    -> (pre_state, obs, post_state)"""
+    -> (pre_state, obs, post_state, imp)   imp: see lazy_class (taken before op)"""
     r = Real()
     r.pristine()
     try:
         state = INITIAL
+        imp = {}
         for h in hist:
             h = tuple(h)
             o = r.apply(h, probe=False)
+            note_imports(imp, h, o)
             state = next_state(state, h, o)
         obs = r.apply(tuple(op), probe=True)
-        return state, obs, next_state(state, tuple(op), obs)
+        return state, obs, next_state(state, tuple(op), obs), imp
     finally:
         r.cleanup()
 
@@ -488,7 +569,7 @@ def expand_patch(item, acc, tier):
     succ = []
     with sandbox("c20p", {f"{m}.py": s for m, s in HELPER_SRC.items()}):
         for op in ops_for(state, tier):
-            pre, obs, post = run_patch_history(hist, op)
+            pre, obs, post, imp = run_patch_history(hist, op)
             if pre != state:
                 raise core.HarnessError(f"C20: history {hist} reached {pre}, expected {state} (replay is not deterministic)")
             acc.count("transitions")
@@ -500,7 +581,7 @@ def expand_patch(item, acc, tier):
             acc.outcome(("patch", op[0], obs.get("raised"), obs.get("exit_raised"), obs["status"], obs.get("conn"), tuple(sorted((obs.get("func") or {}).items()))))
             if post != pre:
                 acc.nontrivial(("patch", state, op))
-            for clause, cls, failed, detail in judge_patch(pre, op, obs):
+            for clause, cls, failed, detail in judge_patch(pre, op, obs, imp):
                 acc.member(clause, cls, failed)
                 if failed:
                     acc.violation(clause, cls, {"pre_state": pre, "op": op, **detail}, {"part": "patch", "history": hist, "op": op})
@@ -897,11 +978,11 @@ def work(item, acc, tier):
 def run(ctx: core.Ctx):
     tier = ctx.tier
     ctx.rule = (
-        "patch: BFS to fixpoint over (open blocks, status of the not-yet-imported helper module, attributes left "
-        "non-original outside any block, last top-level event); every enabled operation (enter with each of the "
-        f"{len(TARGET_LISTS)} target lists, leave normally, leave by exception) is executed on the real fakesnow.patch after "
+        "patch: BFS to fixpoint over (open blocks, status of every attribute of the not-yet-imported helper modules, "
+        "attributes left non-original outside any block, last top-level event); every enabled operation (enter with each of the "
+        f"{len(target_lists(tier))} target lists, leave normally, leave by exception) is executed on the real fakesnow.patch after "
         "replaying the state's history from a pristine interpreter state; non-trivial = transition that changes the "
-        "abstract state; each state is expanded from up to 2 different histories. cli: every token sequence of "
+        f"abstract state; each state is expanded from up to {HISTORIES_PER_STATE[tier]} different histories. cli: every token sequence of "
         f"length <= {MAX_LEN[tier]} over the {len(TOKENS)} tokens is run through the real fakesnow.cli.main against "
         "recorder targets; non-trivial = the reference names a target (the expectation is a concrete target and "
         "sys.argv). options: full product of patch() option values, patch() vs FakeSnow() differential."
@@ -909,7 +990,7 @@ def run(ctx: core.Ctx):
     ctx.assumptions = [
         "helper/target modules generated under /verif/.work are representative of user modules doing from-imports",
         "states with equal (open blocks, lazy-module status, leaked attributes, last event) have equal futures; "
-        "cross-checked by expanding each state from a second, different history",
+        "cross-checked in the thorough tier by expanding each state from a second, different history",
         "the reference splitter encodes argparse's grammar for the option table (selftest/test_c20.py compares it with "
         "a hand-written table and with argparse itself)",
         "fakesnow.cli looks up fakesnow.patch at call time (the db_path seam); a bypass is a harness error, not a verdict",
@@ -927,7 +1008,7 @@ def run(ctx: core.Ctx):
         cands.sort(key=lambda x: (repr(x[0]), len(x[1]), repr(x[1])))
         keep, last = [], None
         for st, hist in cands:
-            if seen.get(st, 0) < 2 and (st, hist) != last:
+            if seen.get(st, 0) < HISTORIES_PER_STATE[tier] and (st, hist) != last:
                 seen[st] = seen.get(st, 0) + 1
                 keep.append(("patch", st, hist))
             last = (st, hist)
@@ -959,7 +1040,8 @@ def run(ctx: core.Ctx):
     ctx.extra["argv_max_len"] = MAX_LEN[tier]
     ctx.extra["argv_space"] = expected
     ctx.extra["argv_distinct_wellformed_shapes"] = len(ctx.acc.sets.get("argv_shapes", ()))
-    ctx.extra["patch_target_lists"] = {k: (v[0] if isinstance(v[0], str) else list(v[0])) for k, v in TARGET_LISTS.items()}
+    ctx.extra["patch_target_lists"] = {k: (v[0] if isinstance(v[0], str) else list(v[0])) for k, v in TARGET_LISTS.items() if k in target_lists(tier)}
+    ctx.extra["patch_helper_modules"] = HELPER_SRC
     ctx.extra["patch_states"] = len(seen)
 
 
@@ -971,12 +1053,12 @@ def replay(payload):
         hist = [tuple(h) for h in r["history"]]
         op = tuple(r["op"])
         with sandbox("c20r", {f"{m}.py": s for m, s in HELPER_SRC.items()}):
-            pre, obs, post = run_patch_history(hist, op)
+            pre, obs, post, imp = run_patch_history(hist, op)
         print("history:", hist, "op:", op)
         print("state before:", pre)
         print("observed:", {k: v for k, v in obs.items()})
         print("state after:", post)
-        verdicts = judge_patch(pre, op, obs)
+        verdicts = judge_patch(pre, op, obs, imp)
     elif part == "cli":
         argv = tuple(r["argv"])
         with sandbox("c20r", cli_files()) as d:
